@@ -512,7 +512,8 @@ impl StringGenerator {
                     if cell.ch == '\0' {
                         vec![b' ']
                     } else {
-                        let uni_ch = CP437_TO_UNICODE[cell.ch as usize].to_string();
+                        // a char outside the code page (e.g. from a loaded utf8 file) is unicode already
+                        let uni_ch = CP437_TO_UNICODE.get(cell.ch as usize).copied().unwrap_or(cell.ch).to_string();
                         uni_ch.as_bytes().to_vec()
                     }
                 } else if StringGenerator::CONTROL_CHARS.contains(cell.ch) {
